@@ -695,6 +695,53 @@ def wide_operator_programs(tier, use_solve=False):
                     yield None
 
 
+def wide_constant_programs(tier, use_solve=False):
+    """integer constants and domains around the machine-word boundaries (2**31, 2**32, 2**63, 2**64, 10**30 and their
+    negatives): x in [c-1, c+1] with  x == c | x != c and x >= c | x + 1 == c + 1 | x - c == 0 | x > c - 1 and x < c + 1 | -x == -c
+    -- each has exactly one model"""
+    load_repo()
+    from cspuz import Solver
+    cs = []
+    for b in (2 ** 31, 2 ** 32, 2 ** 62, 2 ** 63, 2 ** 64, 10 ** 30):
+        cs += [b - 1, b, b + 1, -b + 1, -b, -b - 1]
+    if tier == "quick":
+        cs = cs[::2] + [2 ** 63, 2 ** 63 + 1, 2 ** 64 - 1, -(2 ** 63) - 1, -(2 ** 64) + 1]
+    for c in cs:
+        for kind in ("eq", "ne-ge", "plus", "minus", "between", "neg"):
+            s = Solver()
+            x = s.int_var(c - 1, c + 1)
+            want = c
+            if kind == "eq":
+                s.ensure(x == c)
+            elif kind == "ne-ge":
+                s.ensure(x != c)
+                s.ensure(x >= c)
+                want = c + 1
+            elif kind == "plus":
+                s.ensure(x + 1 == c + 1)
+            elif kind == "minus":
+                s.ensure(x - c == 0)
+            elif kind == "between":
+                s.ensure((x > c - 1) & (x < c + 1))
+            else:
+                s.ensure(-x == -c)
+            try:
+                if use_solve:
+                    s.add_answer_key(x)
+                    r = s.solve()
+                else:
+                    r = s.find_answer()
+            except Exception as e:
+                yield dict(kind="exception:%s" % type(e).__name__, detail="wide constant %s(c=%d): %s: %s" % (kind, c, type(e).__name__, str(e)[:160]), program=[kind, str(c)])
+                continue
+            if r is not True:
+                yield dict(kind="sat-mismatch", detail="wide constant %s(c=%d): the solver says %r, the program has exactly one model" % (kind, c, r), program=[kind, str(c)])
+            elif x.sol != want or type(x.sol) is not int:
+                yield dict(kind="sol-not-the-model", detail="wide constant %s(c=%d): x reported as %r, its only value is %d" % (kind, c, x.sol, want), program=[kind, str(c)])
+            else:
+                yield None
+
+
 def run_c01(rep, tier, seed, nproc=16):
     from concurrent.futures import ProcessPoolExecutor
     from pyvc.runner import write_replay
@@ -743,6 +790,15 @@ def run_c01(rep, tier, seed, nproc=16):
                 payload = dict(engine="programs", property="C01", **f)
                 rp = write_replay("C01", "find_answer_%s_large" % f["kind"], payload)
                 rep.violation(sig, f["detail"], rp)
+    for f in wide_constant_programs(tier):
+        rep.evaluations += 1
+        if f is not None:
+            sig = "e2e:find_answer:%s:wide-constant" % f["kind"]
+            if sig not in seen:
+                seen.add(sig)
+                payload = dict(engine="programs", property="C01", **f)
+                rp = write_replay("C01", "find_answer_%s_wideconst" % f["kind"], payload)
+                rep.violation(sig, f["detail"], rp)
     for f in wide_operator_programs(tier):
         rep.evaluations += 1
         if f is not None:
@@ -759,7 +815,7 @@ def replay_c01(payload):
     load_repo()
     if "how" not in payload:
         # large / wide-operator / shared-subterm families: deterministic, re-run the family and report what still fails
-        bad = [f for f in list(large_structured_programs("quick")) + list(wide_operator_programs("quick")) if f is not None]
+        bad = [f for f in list(large_structured_programs("quick")) + list(wide_operator_programs("quick")) + list(wide_constant_programs("quick")) if f is not None]
         for f in bad[:5]:
             print("still fails:", f["detail"])
         if not bad:
